@@ -1,13 +1,22 @@
 /-
 C10  FX sensitivities are exact and the market state follows its update history.
 
-PARTIAL (DESIGN.md "C10 partial"): that the reported sensitivity of a cross to a quote is ± cross/quote
-on the tree path and 0 off it follows from C09 (each cross is the path product of quotes and
-reciprocals) and C01/C02 (the dual-number arithmetic differentiates every such formula exactly); it is
-not restated as one theorem here.  It is checked on every run by the correspondence (gradients and
-Hessians by name) and by a model-free oracle (every reported sensitivity is 0 or ± cross/quote).
+SENSITIVITIES (Proofs/FXSens.lean): the triangulation preserves every relation closed under its arithmetic
+(`fill_consistentR`); instantiated with "value `u_i/u_j`, sensitivity `value·(λ_i − λ_j)`" this gives, for
+quotes given as plain numbers, `C10_sensitivity`: with `σ` the CUT of the currencies that the quote `q0`
+crosses and no other quote crosses — in a tree of quotes, the two sides of the edge `q0` — the sensitivity of
+EVERY cross i/j to `fx_<q0>` is `(σ i − σ j) · cross / quote`: `+cross/quote` or `−cross/quote` when the path
+from i to j crosses `q0` (sign by direction of travel), `0` when it does not.  `C10_sensitivity_general` is
+the same for quotes that are already dual numbers (any log-derivative potential).  SECOND ORDER
+(`C10_second_order_same`, `C10_second_order_cross`): the stored (half) second derivatives are
+`½·cross·(s² − s)/quote²` for one quote twice and `½·cross·s0·s1/(quote0·quote1)` for two different quotes —
+the matching second derivatives of `cross ∝ quote^s`.
+(That a cut exists for every quote of a tree — every edge of a tree is a bridge — is graph theory that is
+not restated; the cut is a hypothesis, like the potential `u` in C09.)
+STATE MACHINE: naming, refused updates, rebuild after accepted updates, derivative-order switches.
 -/
 import RateslibModel.Proofs.FXInit
+import RateslibModel.Proofs.FXSens
 import RateslibModel.Analysis.RealInst
 namespace Rateslib
 open Real
@@ -172,5 +181,94 @@ theorem C10_order_keeps_values (currencies : List String) (quotes : List (FXQuot
     · intro i j; rw [← h1]; rfl
 
 end Values
+
+/-! ### sensitivities -/
+section Sensitivities
+open Rateslib.Dual
+
+/-- FIRST-ORDER SENSITIVITIES OF EVERY RATE, general form (quotes of any kind): if the lifted quotes are
+described by value potentials `u` and, for the variable `v`, a log-derivative potential `lam`
+(`∂_v quote = quote·(lam a − lam b)`), so is every entry of the triangulated first-order array. -/
+theorem C10_sensitivity_general (currencies : List String) (quotes : List (FXQuote ℝ)) (u : Nat → ℝ)
+    (hu : ∀ i, u i ≠ 0) (lam : Nat → ℝ) (v : String)
+    (hq : ∀ q ∈ quotes, RateRel u lam v (pairIdx currencies q).1 (pairIdx currencies q).2
+      (setOrder q.rate .one [fxVarName q]).toDual)
+    (a1 : Nat → Nat → Dual ℝ) (h1 : createFxArray currencies quotes .one = some (.dual a1)) :
+    ∀ i j, i < currencies.length → j < currencies.length →
+      (a1 i j).WF ∧ (a1 i j).real = u i / u j ∧ den (a1 i j) v = u i / u j * (lam i - lam j) :=
+  fxArray_rateRel currencies quotes u hu lam v hq a1 h1
+
+/-- FIRST-ORDER SENSITIVITIES, quotes given as plain numbers: the sensitivity of every cross i/j to the
+variable `fx_<q0>` of a quote `q0` is `(σ i − σ j) · cross / quote`, `σ` the cut that `q0` alone crosses:
+`± cross/quote` on the path (sign by direction of travel), `0` off it. -/
+theorem C10_sensitivity (currencies : List String) (quotes : List (FXQuote ℝ)) (u : Nat → ℝ)
+    (hu : ∀ i, u i ≠ 0)
+    (hval : ∀ q ∈ quotes, ∃ f, q.rate = .f64 f ∧
+      f = u (pairIdx currencies q).1 / u (pairIdx currencies q).2)
+    (q0 : FXQuote ℝ) (f0 : ℝ) (hf0 : q0.rate = .f64 f0)
+    (hf0u : f0 = u (pairIdx currencies q0).1 / u (pairIdx currencies q0).2)
+    (σ : Nat → ℝ) (h0 : σ (pairIdx currencies q0).1 - σ (pairIdx currencies q0).2 = 1)
+    (hoth : ∀ q ∈ quotes, fxVarName q ≠ fxVarName q0 → σ (pairIdx currencies q).1 = σ (pairIdx currencies q).2)
+    (hsame : ∀ q ∈ quotes, fxVarName q = fxVarName q0 →
+      pairIdx currencies q = pairIdx currencies q0 ∧ q.rate = q0.rate)
+    (a1 : Nat → Nat → Dual ℝ) (h1 : createFxArray currencies quotes .one = some (.dual a1)) :
+    ∀ i j, i < currencies.length → j < currencies.length →
+      (a1 i j).real = u i / u j ∧
+      den (a1 i j) (fxVarName q0) = (σ i - σ j) * (a1 i j).real / f0 :=
+  fx_sensitivity_cut currencies quotes u hu hval q0 f0 hf0 hf0u σ h0 hoth hsame a1 h1
+
+/-- the three cases of `C10_sensitivity` for a 0/1 cut, spelled out -/
+theorem C10_sensitivity_cases (cross f0 si sj : ℝ) (hi : si = 0 ∨ si = 1) (hj : sj = 0 ∨ sj = 1) :
+    (si - sj) * cross / f0 = cross / f0 ∨ (si - sj) * cross / f0 = -(cross / f0) ∨
+    (si - sj) * cross / f0 = 0 := by
+  rcases hi with rfl | rfl <;> rcases hj with rfl | rfl
+  · right; right; simp
+  · right; left; ring
+  · left; ring
+  · right; right; simp
+
+/-- SECOND ORDER, one quote twice: `½ · cross · (s² − s) / quote²` (stored half second derivative). -/
+theorem C10_second_order_same (currencies : List String) (quotes : List (FXQuote ℝ)) (u : Nat → ℝ)
+    (hu : ∀ i, u i ≠ 0)
+    (hval : ∀ q ∈ quotes, ∃ f, q.rate = .f64 f ∧
+      f = u (pairIdx currencies q).1 / u (pairIdx currencies q).2)
+    (q0 : FXQuote ℝ) (f0 : ℝ) (hf0 : q0.rate = .f64 f0)
+    (hf0u : f0 = u (pairIdx currencies q0).1 / u (pairIdx currencies q0).2)
+    (σ : Nat → ℝ) (h0 : σ (pairIdx currencies q0).1 - σ (pairIdx currencies q0).2 = 1)
+    (hoth : ∀ q ∈ quotes, fxVarName q ≠ fxVarName q0 → σ (pairIdx currencies q).1 = σ (pairIdx currencies q).2)
+    (hsame : ∀ q ∈ quotes, fxVarName q = fxVarName q0 →
+      pairIdx currencies q = pairIdx currencies q0 ∧ q.rate = q0.rate)
+    (a2 : Nat → Nat → Dual2 ℝ) (h2 : createFxArray currencies quotes .two = some (.dual2 a2)) :
+    ∀ i j, i < currencies.length → j < currencies.length →
+      Dual2.den2 (a2 i j) (fxVarName q0) (fxVarName q0)
+        = 1 / 2 * (a2 i j).real * ((σ i - σ j) ^ 2 - (σ i - σ j)) / f0 ^ 2 :=
+  fx_sensitivity2_same currencies quotes u hu hval q0 f0 hf0 hf0u σ h0 hoth hsame a2 h2
+
+/-- SECOND ORDER, two different quotes: `½ · cross · s0 · s1 / (quote0 · quote1)`. -/
+theorem C10_second_order_cross (currencies : List String) (quotes : List (FXQuote ℝ)) (u : Nat → ℝ)
+    (hu : ∀ i, u i ≠ 0)
+    (hval : ∀ q ∈ quotes, ∃ f, q.rate = .f64 f ∧
+      f = u (pairIdx currencies q).1 / u (pairIdx currencies q).2)
+    (q0 q1 : FXQuote ℝ) (f0 f1 : ℝ) (hf0 : q0.rate = .f64 f0) (hf1 : q1.rate = .f64 f1)
+    (hf0u : f0 = u (pairIdx currencies q0).1 / u (pairIdx currencies q0).2)
+    (hf1u : f1 = u (pairIdx currencies q1).1 / u (pairIdx currencies q1).2)
+    (hne : fxVarName q0 ≠ fxVarName q1)
+    (σ0 σ1 : Nat → ℝ)
+    (h0 : σ0 (pairIdx currencies q0).1 - σ0 (pairIdx currencies q0).2 = 1)
+    (h1 : σ1 (pairIdx currencies q1).1 - σ1 (pairIdx currencies q1).2 = 1)
+    (hoth0 : ∀ q ∈ quotes, fxVarName q ≠ fxVarName q0 → σ0 (pairIdx currencies q).1 = σ0 (pairIdx currencies q).2)
+    (hoth1 : ∀ q ∈ quotes, fxVarName q ≠ fxVarName q1 → σ1 (pairIdx currencies q).1 = σ1 (pairIdx currencies q).2)
+    (hsame0 : ∀ q ∈ quotes, fxVarName q = fxVarName q0 →
+      pairIdx currencies q = pairIdx currencies q0 ∧ q.rate = q0.rate)
+    (hsame1 : ∀ q ∈ quotes, fxVarName q = fxVarName q1 →
+      pairIdx currencies q = pairIdx currencies q1 ∧ q.rate = q1.rate)
+    (a2 : Nat → Nat → Dual2 ℝ) (h2 : createFxArray currencies quotes .two = some (.dual2 a2)) :
+    ∀ i j, i < currencies.length → j < currencies.length →
+      Dual2.den2 (a2 i j) (fxVarName q0) (fxVarName q1)
+        = 1 / 2 * (a2 i j).real * ((σ0 i - σ0 j) * (σ1 i - σ1 j)) / (f0 * f1) :=
+  fx_sensitivity2_cross currencies quotes u hu hval q0 q1 f0 f1 hf0 hf1 hf0u hf1u hne σ0 σ1 h0 h1
+    hoth0 hoth1 hsame0 hsame1 a2 h2
+
+end Sensitivities
 
 end Rateslib
